@@ -234,9 +234,7 @@ theorem den_dict_is_dict (ks vs : List Expr) (env : Env) (x : Val) (h : denLz w 
       split at h
       · simp only [mkDictLz, mkDict] at h
         split at h
-        · split at h
-          · cases h
-          · cases h; exact ⟨kv, vv, rfl⟩
+        · cases h; exact ⟨_, _, rfl⟩
         · cases h
       · cases h
 
